@@ -210,6 +210,7 @@ type runner struct {
 	ins     map[int]*inSock
 	outs    map[int]*outAddr
 	seeders []*vh.Seeder
+	conns   []net.Conn // every connection of the scripted side (closed at teardown)
 	tokens  chan struct{}
 	free    atomic.Bool
 	quit    chan struct{}
@@ -272,6 +273,9 @@ func (r *runner) dialIn(st Step) *inSock {
 	s.c = c
 	s.lport = c.LocalAddr().(*net.TCPAddr).Port
 	s.open.Store(true)
+	r.mu.Lock()
+	r.conns = append(r.conns, c)
+	r.mu.Unlock()
 	T.Emit(vh.Ev{"ev": "conn", "dir": "in", "key": st.Key, "ip": st.IP, "lport": s.lport})
 	r.wg.Add(1)
 	go func() {
@@ -398,6 +402,9 @@ func (r *runner) listen(st Step) {
 			s.open.Store(true)
 			a.acc = append(a.acc, s)
 			a.mu.Unlock()
+			r.mu.Lock()
+			r.conns = append(r.conns, c)
+			r.mu.Unlock()
 			T.Emit(vh.Ev{"ev": "oacc", "key": a.key, "k": s.k})
 			r.wg.Add(1)
 			go r.serveOut(a, s)
@@ -841,10 +848,7 @@ func run(sc Scenario, dir string, h *hub) {
 	}
 	r.mu.Lock()
 	for _, s := range r.ins {
-		if s.c != nil {
-			s.self.Store(true)
-			s.c.Close()
-		}
+		s.self.Store(true)
 	}
 	for _, a := range r.outs {
 		if a.l != nil {
@@ -859,15 +863,23 @@ func run(sc Scenario, dir string, h *hub) {
 		a.mu.Lock()
 		for _, s := range a.acc {
 			s.self.Store(true)
-			s.c.Close()
 		}
 		a.mu.Unlock()
+	}
+	for _, c := range r.conns {
+		c.Close()
 	}
 	for _, sd := range r.seeders {
 		sd.Close()
 	}
 	r.mu.Unlock()
-	r.wg.Wait()
+	wd := make(chan struct{})
+	go func() { r.wg.Wait(); close(wd) }()
+	select {
+	case <-wd:
+	case <-time.After(10 * time.Second):
+		panic("x03 driver: scripted sides do not end")
+	}
 	T.Emit(vh.Ev{"ev": "end"})
 }
 
